@@ -287,13 +287,13 @@ def r13_5(ctx):
 
 
 def run(ctx):
-    r13_1(ctx)
-    r13_2(ctx)
-    r13_3(ctx)
-    r13_4(ctx)
-    r13_5(ctx)
+    ctx.do(r13_1)
+    ctx.do(r13_2)
+    ctx.do(r13_3)
+    ctx.do(r13_4)
+    ctx.do(r13_5)
     from . import c10
-    c10.r10_7(ctx)
+    ctx.do(c10.r10_7)
     ctx.note("periodic poll liveness (clean-up before the emptiness test of executing_tasks) is decided by C10 R10.7")
     for k, v in WRITEBACK_EXEMPT.items():
         ctx.trust(f"frozen write-back exemption: {k} - {v}")
